@@ -61,6 +61,7 @@ def forms(v):
         ('for i in "$x" "$x"; do F "$i"; done', [[v], [v]]), ('F "a${x}b" "$x$x"', [["a" + v + "b", v + v]]), ('F "${x:-D}" "${x:+"$x"}"', [[v or "D", v]]), ('F "${u:-$x}" "${u-"$x"}"', [[v, v]]),
         ('declare y="$x"; F "$y"', [[v]]), ('declare y=$x; F "$y"', [[v]]), ('export y="$x"; F "$y"', [[v]]), ('g() { local y=$x z="$x"; F "$y" "$z" "$1"; }; g "$x"', [[v, v, v]]),
         ('declare -a arr2=("$x"); F "${arr2[@]}"', [[v]]), ('printf -v y %s "$x"; F "$y"', [[v]]), ('F "${x@Q}" >/dev/null; F "${#x}"', [[str(len(v))]]),
+        ('ref=x; F "${!ref}"', [[v]]), ('F "${x:0}" "${x::${#x}}"', [[v, v]]), ('declare -A m; m[k]="$x"; m[j]=$x; F "${m[k]}" "${m[j]}"', [[v, v]]),
         ('h() { F "$@"; }; h "$x" "$@"', [[v, v, v]]), ('set -- "$x" "$x"; F "$#"', [["2"]]), ('F "${*:1:1}" "${@:2}" "${a[@]:1}"', [[v, v, v]]), ('F "${x%%}" "${x/#/}"', None),
     ]
     if valid_name(v):
